@@ -89,7 +89,7 @@ def _mut(rng, s):
     """strings near the alphabet: one foreign character somewhere"""
     if s and rng.random() < 0.3:
         i = rng.randrange(len(s))
-        return s[:i] + rng.choice('0OIl+/ =\n\x00é') + s[i + 1:]
+        return s[:i] + rng.choice('0OIl+/ =\n\x00é\u0100\u212a\uffff\U0001F600') + s[i + 1:]
     return s
 
 
